@@ -305,9 +305,18 @@ func (root *Root) addTypes(types ...Type) error {
 				}
 				return fmt.Errorf("%w: %s is already in the schema", ErrDuplicate, name)
 			}
-			switch t.(type) {
+			switch tt := t.(type) {
 			case *List, *NonNull, *Ref:
 				return fmt.Errorf("%w: %s, a %T can not be added", ErrTypeMismatch, name, t)
+			case *Interface:
+				// An interface made by the parser knows its root, one built
+				// by the application and added with AddTypes() has to be
+				// told or introspection of its possible types has no type
+				// list to look at.
+				if tt.Root == nil {
+					tt.Root = root
+				}
+				root.types.add(t)
 			default:
 				root.types.add(t)
 			}
